@@ -175,7 +175,7 @@ theorem viYank_spec (r1 o1 r2 o2 : Int) (lnmode : Bool) (s s' : VS) (a : Nat)
     ∃ region, lbufRegion s r1 (if lnmode then 0 else o1) r2 (if lnmode then -1 else o2) = some region ∧
       lines s' = lines s ∧
       s'.ed.regs = s.ed.regs.put s.ybuf region (if lnmode then 1 else 0) ∧
-      s'.ed.xrow = r1 ∧ s'.ed.xoff = (if lnmode then s.ed.xoff else o1) ∧ a = 0 ∧
+      s'.ed.xrow = r1 ∧ s'.ed.xoff = (if lnmode then s.ed.xoff else o1) ∧ a = VC_COL ∧
       s' = { s with ed := { s.ed with regs := s'.ed.regs, xrow := s'.ed.xrow, xoff := s'.ed.xoff } } := by
   obtain ⟨region, hreg, rfl, rfl⟩ := viYank_eq r1 o1 r2 o2 lnmode s s' a h
   exact ⟨region, hreg, rfl, rfl, rfl, rfl, rfl, rfl⟩
